@@ -29,7 +29,7 @@ GATES = ("silent.region_fault_fired", "variant.debug", "variant.rows_displayed",
 
 
 def _variant(rng):
-    v = {"obs": {"level": str(rng.choice(["CRITICAL", "WARNING", "INFO", "DEBUG"], p=[0.1, 0.2, 0.3, 0.4])), "callbacks": (["touch"] if rng.random() < 0.5 else []) + (["reenter"] if rng.random() < 0.12 else []) + ([str(rng.choice(["oneshot", "spawner"]))] if rng.random() < 0.15 else [])}, "params": {}, "faults": []}
+    v = {"obs": {"level": str(rng.choice(["CRITICAL", "WARNING", "INFO", "DEBUG"], p=[0.1, 0.2, 0.3, 0.4])), "callbacks": (["touch"] if rng.random() < 0.5 else []) + (["reenter"] if rng.random() < 0.12 else []) + ([str(rng.choice(["oneshot", "spawner", "scribble"]))] if rng.random() < 0.2 else [])}, "params": {}, "faults": []}
     di = rng.choice(["none", "zero", "0.1", "huge"], p=[0.25, 0.3, 0.35, 0.1])
     v["params"]["display_interval"] = {"none": None, "zero": 0.0, "0.1": 0.1, "huge": 1e18}[str(di)]
     v["clock"] = gen.gen_clock(rng, n=600)
